@@ -47,7 +47,7 @@ struct Listener : public DeviceListener {
 };
 
 struct Segment { std::vector<uint8_t> bytes; int action; uint8_t arg; };   // action before the bytes: 0 none 1 startArb 2 send 3 info 4 cancel
-struct Observed { std::vector<Ev> evs; std::vector<std::string> diags; std::vector<uint8_t> tx; std::string rawseq; std::string arbseq; bool closed; };
+struct Observed { std::vector<Ev> evs; std::vector<std::string> diags; std::vector<uint8_t> tx; std::string rawseq; std::string arbseq; bool closed; std::vector<size_t> timeoutAt; };
 
 static Stats st;
 
@@ -90,7 +90,8 @@ static Observed runCase(const std::vector<Segment>& segs, const std::vector<size
       // won/lost results are the decoded outcomes; error/timeout states cancel a running arbitration and may coalesce with
       // a following outcome inside one buffer, they are counted but not compared between chunkings
       if (a == as_won) ob.arbseq += 'W'; else if (a == as_lost) ob.arbseq += 'L';
-      else if (a == as_error) st.n["arbitration_error_states"]++; else if (a == as_timeout) st.n["arbitration_timeout_states"]++;
+      else if (a == as_error) st.n["arbitration_error_states"]++;
+      else if (a == as_timeout) { st.n["arbitration_timeout_states"]++; ob.timeoutAt.push_back(ob.evs.size()); }   // after how many symbols
       if (r == RESULT_OK || r == RESULT_CONTINUE) {
         idle = 0;
         char arb = a == as_won ? 'W' : a == as_lost ? 'L' : '-';
@@ -157,6 +158,12 @@ static void checkStream(const std::vector<Segment>& segs, const std::vector<std:
       for (auto& d : ob.diags) if (d.find("overflow") != std::string::npos) overflow = true;
       for (auto& d : first.diags) if (d.find("overflow") != std::string::npos) overflow = true;
       if (overflow) { st.n["skipped_buffer_overflow"]++; continue; }
+      if (ob.evs == first.evs && ob.timeoutAt != first.timeoutAt) {
+        // the arbitration timeout (third SYN without a result) is a function of the decoded symbols: it has to come at the same symbol
+        std::string a1, a2; for (auto x : ob.timeoutAt) a1 += std::to_string(x) + " "; for (auto x : first.timeoutAt) a2 += std::to_string(x) + " ";
+        violation("chunking-changes-arbitration-timeout", what + " stream=" + hexv(all) + " chunking=" + cs + " timeout after symbol(s) [" + a1 + "] vs [" + a2 + "]");
+        return;
+      }
       if (!(ob.evs == first.evs) || ob.arbseq != first.arbseq || ob.closed != first.closed) {
         violation("chunking-changes-symbols", what + " stream=" + hexv(all) + " chunking=" + cs + " " + around(ob.evs, first.evs) + " arb=[" + ob.arbseq + "] vs [" + first.arbseq + "] closed=" + std::to_string(ob.closed) + "/" + std::to_string(first.closed));
         return;
@@ -330,6 +337,29 @@ int main(int argc, char** argv) {
       }
     }
     st.n["exhaustive_len"] = (long long)len;
+  }
+  if (mode == "syncount") {
+    // running arbitration without a result: the timeout comes with the third further SYN, wherever the chunk borders are.
+    // streams of 1..5 RECEIVED(SYN) frames with 0..2 other symbols (plain and two-byte form) at every position, all chunkings
+    std::vector<std::vector<size_t>> parts;
+    for (int nsyn = 1; nsyn <= 5; nsyn++) for (int nother = 0; nother <= 2; nother++) {
+      int total = nsyn + nother;
+      for (int mask = 0; mask < (1 << total); mask++) {
+        if (__builtin_popcount((unsigned)mask) != nother) continue;
+        for (int form = 0; form < (nother ? 2 : 1); form++) {
+          std::vector<uint8_t> s;
+          for (int i = 0; i < total; i++) {
+            if (mask & (1 << i)) { if (form == 0) s.push_back(0x15); else { s.push_back(0xc7); s.push_back(0xbf); } }
+            else { s.push_back(0xc6); s.push_back(0xaa); }
+          }
+          if (s.size() > 12) continue;
+          partitions(s.size(), &parts);
+          current("syncount " + hex(s));
+          st.n["distinct_nontrivial"]++;
+          checkStream({{s, 1, 0x31}}, parts, "arbitration-timeout");
+        }
+      }
+    }
   }
   if (mode == "random") {
     long n = a.num("n", 300);
